@@ -234,6 +234,11 @@ func concreteReplay(eng *Engine, p *Property, e *LedgerEntry, fp *FuncProof, bas
 		}
 		add([]byte("u0aD8 ")...)
 	}
+	if e.alphaOverride != nil {
+		alpha = nil
+		alphaMax = len(e.alphaOverride)
+		add(e.alphaOverride...)
+	}
 	structural := []byte(`[]{}",:`)
 	for _, b := range byteConstants(e.failQ) {
 		// prefer printable JSON-relevant bytes seen on the path
